@@ -192,6 +192,29 @@ def run(ctx):
                'queue; EINTR storms) the wrapper spins and the real exec is never reached' % render(c))
     chk.ob('B5', 'no-retry-loops-in-outputs', not looped, '', '', '%d I/O call(s) in loops' % len(looped),
            how='%d I/O calls in %d outputs are all outside CFG cycles' % (nio, len(outs)))
+    # errno-driven retry anywhere on the exec path: a loop that goes round again because errno says "transient"
+    # (EINTR, EAGAIN) has no bound - the condition can persist (unread queue, signal storm) or stick (the error flag
+    # of a stdio stream is not cleared by a later successful read, errno keeps its value)
+    nloops = 0
+    for key, (f, _, _) in sorted(reach.items(), key=lambda kv: str(kv[0])):
+        live = C.reachable_blocks(f)
+        for comp in C._sccs(f, live):
+            if not (len(comp) > 1 or comp[0] in f.blocks[comp[0]].succs):
+                continue
+            nloops += 1
+            cs = set(comp)
+            for bid in comp:
+                b = f.blocks[bid]
+                if b.cond is None or not any(s_ in cs for s_, u in b.all_succs if s_ is not None and not u):
+                    continue
+                uses_errno = any((n.k == 'CallExpr' and n.get('callee') == '__errno_location') or
+                                 (n.k == 'DeclRefExpr' and n['ref'].get('name') == 'errno') for n in b.cond.walk())
+                if uses_errno:
+                    chk.ob('B5', 'errno-retry-loop[%s]' % f.name, False, b.cond.where(), f.name,
+                           'the loop goes round again depending on errno (%s): nothing bounds the retries, so a persistent '
+                           'or sticky condition (EAGAIN on an unread queue, EINTR with a stdio error flag that is never '
+                           'cleared) keeps the caller inside the wrapper forever' % render(b.cond)[:70])
+    chk.ob('B5', 'no-errno-driven-retry-loops', True, '', '', how='%d loops on the exec path inspected' % nloops, nontrivial=False)
     # ---- B6 ------------------------------------------------------------------------
     from rules.recursion import recursion_rule
     recursion_rule(ctx, prog, cg, reach, 'B6')
